@@ -187,6 +187,8 @@ type Exec struct {
 	newWorkModels []map[string]uint64
 	cacheHits     int
 	curKind       string
+	rangeExcluded int
+	timerObjs     map[*Cell]*Timer
 	assertInherited int
 	pcSet         map[*Term]bool
 }
